@@ -151,8 +151,11 @@ func getKeystoreFromJson(keysJson []byte) (*Keystore, error) {
 // NOTE: this func will leave the masterKeyPriv derived
 func (a *AddrManager) checkPassword(passphrase []byte) error {
 	if a.unlocked {
-		saltedPassphrase := append(a.privPassphraseSalt[:],
-			passphrase...)
+		// copy: appending an empty passphrase to the salt's own array would alias it,
+		// and zeroing the copy below would then zero the salt
+		saltedPassphrase := make([]byte, 0, saltSize+len(passphrase))
+		saltedPassphrase = append(saltedPassphrase, a.privPassphraseSalt[:]...)
+		saltedPassphrase = append(saltedPassphrase, passphrase...)
 		hashedPassphrase := sha512.Sum512(saltedPassphrase)
 		zero.Bytes(saltedPassphrase)
 		if !bytes.Equal(hashedPassphrase[:], a.hashedPrivPassphrase[:]) {
